@@ -208,6 +208,8 @@ def execute(pid, rep, tier, workdir, make_cases, oracles, nontrivial, use_spec=T
                                         "impl": (d["impl"][d["step"]] if d.get("step") is not None else None),
                                         "model": (d["model"][d["step"]] if d.get("step") is not None and isinstance(d.get("model"), list) else d.get("model"))})
     for i in getattr(seq.compare, "corebad", []):
+        if dir_size_observed(obss[i]):
+            continue    # the recorded size of a directory inode changes with its entries: re-execution is unspecified
         res.t2["disagreements"].append({"case": cases[i], "step": None, "impl": None,
                                         "model": "Core model (Model/Core.v) disagrees with the implementation on this history"})
     sizes, opmix, errkinds = [], {}, {}
